@@ -36,6 +36,7 @@ type caseCfg struct {
 	Byz     []int
 	Heights int64
 	Profile string
+	Silent  int // tmpl-valset-eqv: the validator that never runs
 }
 
 func genCase(c int64) caseCfg {
@@ -115,6 +116,20 @@ func genCase(c int64) caseCfg {
 		pw := []int64{1, 10, 33}[(c/8)%3]
 		cc.Powers, cc.Real, cc.Byz, cc.Profile = []int64{pw, pw, pw, pw}, []bool{true, true, true, true}, []int{z}, "tmpl-stale-polka"
 		cc.Real[z] = false
+		return cc
+	}
+	if c%8 == 5 {
+		// scripted: five validators (three honest and one Byzantine of power 10, one of power 4 that never runs); the first block removes
+		// the one that never runs and raises an honest validator's power - two membership operations
+		// applied one after the other to the same next set - then the Byzantine validator equivocates
+		// as proposer with split delivery
+		z := rng.Intn(5)
+		s := (z + 1 + rng.Intn(4)) % 5
+		cc.Powers, cc.Real, cc.Byz, cc.Profile = []int64{10, 10, 10, 10, 10}, []bool{true, true, true, true, true}, []int{z}, "tmpl-valset-eqv"
+		cc.Real[z], cc.Real[s] = false, false
+		cc.Powers[s] = 4 // the three honest ones hold 30 of 44, afterwards 40 of 50; the Byzantine one 10
+		cc.Silent = s
+		cc.Heights = 4
 		return cc
 	}
 	// optionally a full node that is not a validator
@@ -306,6 +321,25 @@ func runCase(run *lib.Run, c int64, base string) {
 		}
 	}
 	switch cc.Profile {
+	case "tmpl-valset-eqv":
+		run.Count("template_valset_history_cases", 1)
+		raised := -1
+		for i, r := range cc.Real {
+			if r {
+				raised = i
+			}
+		}
+		for _, nd := range net.Nodes {
+			if nd.Real {
+				nd.App.ValChanges = true
+				nd.Pool.Extra = [][]byte{[]byte(fmt.Sprintf("VC|rem|%d|0", cc.Silent)), []byte(fmt.Sprintf("VC|upd|%d|20", raised))}
+			}
+		}
+		if _, ok := adv.FairSuffix(2, 8000); ok {
+			if adv.AttackEquivocation(8) {
+				run.Count("template_valset_history_then_equivocation_staged", 1)
+			}
+		}
 	case "tmpl-eqv":
 		if adv.AttackEquivocation(8) {
 			run.Count("template_equivocation_staged", 1)
